@@ -1185,12 +1185,10 @@ theorem chainFrom_mem_class : ∀ (fuel : Nat) (c d : Str), d ∈ chainFrom ct f
     split at h
     · simp at h
     · rename_i dc hdc
-      simp only [List.mem_cons] at h
-      rcases h with rfl | h
+      simp only [List.mem_cons, List.mem_flatMap] at h
+      rcases h with rfl | ⟨b, _, h⟩
       · simp [hdc]
-      · split at h
-        · exact chainFrom_mem_class fuel _ d h
-        · simp at h
+      · exact chainFrom_mem_class fuel b d h
 
 theorem Conf.className_None (hn0 : findClass ct s_None = Option.none) {v : Val} {a : Ty} (h : Conf ct v a) (hn : a.className = s_None) : v = .none := by
   cases h <;> first
